@@ -14,6 +14,7 @@ import SlipVerif.Driver.Util
               C:<p.p.p>/<p.p>          call with arguments whose precedence lists are given explicitly
                                        (a class redefined during the history: same head, other list)
               m:<c.c>  M:<p.p>/<p.p>   compute-applicable-methods, arguments given as for c / C
+              G                        (defgeneric g …) evaluated again, no :method options (`Op.redefine`)
    reply      ok <outcome>*            one outcome per call, in order:
               <events>=<id>|=nil|!na|!nn      events joined by ',' ("-" when none):
               m<id> (body ran)  e<id>+ / e<id>- (around entered, next-method-p true/false)  l<id> (around left)
@@ -49,6 +50,7 @@ def parseOp (n : Nat) (tC : Nat) (tbl : List (Nat × List Nat)) (s : String) : O
     -- every class precedence list must contain t (every slip Hierarchy() ends with t)
     if ps.length = n ∧ ps.all (fun p => p.contains tC) then some ps else none
   match s.splitOn ":" with
+  | ["G"] => some .redefine
   | [h, k, id, mode] =>
     match h.toList with
     | ['d', q] => do
